@@ -8,7 +8,9 @@ def gen_rpq(rng, tier):
     return [G.rpq_case(rng, cancel=True, big=(i % 25 == 0)) for i in range(n)]
 
 
-PAIRS = [("PUSH", "PULL", "ti"), ("DEALER", "ROUTER", "ti"), ("ROUTER", "DEALER", "ti"), ("DEALER", "DEALER", "t")]
+PAIRS = [("PUSH", "PULL", "ti"), ("DEALER", "ROUTER", "ti"), ("ROUTER", "DEALER", "ti"), ("DEALER", "DEALER", "t"), ("PUB", "SUB", "ti")]
+# PUB: small messages and no `fill` (a PUB whose subscriber does not read blocks instead of dropping: that is C12's known finding, not
+# a matter of cancellation); what a PUB accepted may be dropped whole at a high-water mark, so the scenario does not demand arrival
 
 
 def cancel_script(rng):
@@ -17,7 +19,7 @@ def cancel_script(rng):
     tr = "tcp" if rng.choice(trs) == "t" else "inproc"
     ops = []
     sndtimeo = rng.choice([-1, 40, 150])
-    if rng.random() < 0.7:
+    if rng.random() < 0.7 and sty != "PUB":
         ops.append("fill")
     nid = 0
     for _ in range(rng.randrange(4, 11)):
@@ -35,8 +37,8 @@ def cancel_script(rng):
             ops.append("%s:%d%s" % (rng.choice("ddf"), rng.randrange(1, 6), rng.choice(["", "s", "s"])))
         else:
             ops.append("w%d" % rng.choice([1, 5, 30]))
-    return ["cancel tr=%s,sndtimeo=%d,sndhwm=%d,rcvhwm=%d %s %s %s" % (
-        tr, sndtimeo, rng.choice([1, 2, 5]), rng.choice([1, 2, 5]), sty, rty, ";".join(ops))]
+    return ["cancel tr=%s,%ssndtimeo=%d,sndhwm=%d,rcvhwm=%d %s %s %s" % (
+        tr, "size=200," if sty == "PUB" else "", sndtimeo, rng.choice([1, 2, 5]), rng.choice([1, 2, 5]), sty, rty, ";".join(ops))]
 
 
 def frame_by_frame_cases():
@@ -47,6 +49,10 @@ def frame_by_frame_cases():
         for t in trs:
             tr = "tcp" if t == "t" else "inproc"
             for k in (1, 2, 4):
+                if sty == "PUB":
+                    out.append(["cancel tr=%s,size=200,sndtimeo=150,sndhwm=2,rcvhwm=5 PUB SUB m0:%d;s1;R;m2:%dr;u3;R" % (tr, k, k)])
+                    out.append(["cancel tr=%s,size=200,sndtimeo=-1,sndhwm=5,rcvhwm=5 PUB SUB m0:%d;c1:6r;R;m2:%d;v3:6r;R" % (tr, k, k)])
+                    continue
                 out.append(["cancel tr=%s,sndtimeo=150,sndhwm=1,rcvhwm=1 %s %s fill;m0:%d;s1;R;m2:%dr;u3;R" % (tr, sty, rty, k, k)])
                 out.append(["cancel tr=%s,sndtimeo=-1,sndhwm=2,rcvhwm=2 %s %s m0:%d;c1:6r;m2:%d;v3:6r;R" % (tr, sty, rty, k, k)])
     return out
@@ -77,8 +83,8 @@ SPEC = {
     "rule": "the C08 schedules with `cancel <task>` injected (5% of the grants): a task's future is dropped while parked at an await or "
             "before its first poll; oracle: nothing returned twice, per-pipe FIFO per consumer, every accepted item that was not taken "
             "by a cancelled consumer is still delivered, counters consistent (queued = channel length, no leaked reservation) at "
-            "quiescence; non-trivial = at least one future was actually dropped; stack level: on real PUSH/PULL, DEALER/ROUTER, ROUTER/DEALER and "
-            "DEALER/DEALER pairs over tcp and inproc with small high-water marks (the receiver reads only when the script says so), send(), "
+            "quiescence; non-trivial = at least one future was actually dropped; stack level: on real PUSH/PULL, DEALER/ROUTER, ROUTER/DEALER, "
+            "DEALER/DEALER and PUB/SUB pairs over tcp and inproc with small high-water marks (the receiver reads only when the script says so), send(), "
             "send_multipart(), recv() and recv_multipart() futures - and the future of the LAST frame of a message given to send() frame "
             "by frame - are polled 1..6 times - the peer reading or sending in between, so that "
             "the future reaches its later await points - and then dropped; SNDTIMEO -1 / 40 / 150 ms (timeouts cancel internally); oracle: "
